@@ -1,4 +1,5 @@
 import NeatviVerif.Lemmas.C05fH
+import NeatviVerif.Props.C05e
 /-!
 # C05f, part I: `lbuf_search`
 
@@ -277,5 +278,281 @@ theorem search_hit (hE : EngineOk) (ls : Lines) (kw : Bytes) (ic : Bool) (dir r 
       rw [h1] at hb
       cases hb
       exact h2
+
+
+/-! ## the repaired statements
+
+`EngineOk` above is **false** (`Props/C05h.lean`: `engineOk_is_false`); it and `ReOk`, `HitOk`, `search_ok`, `search_hit`
+are kept only because `Props/C05h.lean` states its refutations about them.  Nothing below, and nothing in the rest of
+the C05f chain, uses them any more.  What replaces them:
+
+* **no trap** — proved (`engine_c_strings`, from `Lemmas/C05e`): for a pattern without NUL, `rstr_make` does not trap and
+  its matcher never traps; hence `lbuf_search` started on an existing character never traps (`search_total_c`);
+* **position, weak** — proved without any hypothesis (`search_hit_in`): a hit lies on an existing line at a column
+  `≤` the number of its characters (`HitIn`; the column *can* be the number of characters: C05h
+  `search_hit_beyond_last_char`);
+* **position, strict** — the residual hypothesis `PatIn kw ic ls` (decidable, per pattern and line: `hitInside`): every
+  match the scan of a line can see starts before the end of the line.  Then a hit is a character of its line
+  (`search_hit_strict`).  It is needed only to *restart* a counted search (`2n`, `3?x`) from the previous hit. -/
+
+/-- a compiled pattern whose matcher never traps -/
+def ReTot (re : RStr) : Prop :=
+  ∀ (s : Bytes) (f : Nat), ∃ x, rstrFind re s 1 f search.Ex_ND search.Ex_NG = some x
+
+/-- **the engine on C strings** (no hypothesis left): compiling a pattern without NUL does not trap, and the matcher
+    never traps, on any subject -/
+theorem engine_c_strings (kw : Bytes) (flg : Nat) (h0 : NoNul kw) :
+    ∃ r, rstrMake kw flg = some r ∧ ∀ re, r = some re → ReTot re := by
+  cases hm : rstrMake kw flg with
+  | none => exact absurd hm (Lemmas.C05e.reSafe.make kw flg h0)
+  | some r =>
+    refine ⟨r, rfl, ?_⟩
+    intro re hre s f
+    subst hre
+    exact Lemmas.C05e.rstrFind_total hm s 1 f _ _
+
+theorem search_go_total_c (dir r0 o0 : Int) (re : RStr) (i : Int) (s : Bytes) (hre : ReTot re) :
+    ∀ (f off : Nat) (best : Option (Int × Int)), ∃ b, search.go dir r0 o0 re i s f off best = some b := by
+  intro f
+  induction f with
+  | zero => intro off best; exact ⟨best, by unfold search.go; rfl⟩
+  | succ f ih =>
+    intro off best
+    unfold search.go
+    obtain ⟨⟨res, offs, c⟩, hf⟩ := hre (s.drop off) (if off != 0 then RE_NOTBOL else 0)
+    rw [hf]
+    simp only []
+    splits
+    all_goals first
+      | exact ⟨_, rfl⟩
+      | exact ih _ _
+
+theorem search_rows_total_c (ls : Lines) (dir : Int) (scan : Int → Bytes → Option (Option (Int × Int)))
+    (hscan : ∀ i s, lineAt ls i = some s → ∃ b, scan i s = some b) :
+    ∀ (f : Nat) (i : Int), ∃ res, search.rows ls dir ls.length scan f i = some res := by
+  intro f
+  induction f with
+  | zero => intro i; exact ⟨none, by unfold search.rows; rfl⟩
+  | succ f ih =>
+    intro i
+    unfold search.rows
+    split
+    · exact ⟨none, rfl⟩
+    · cases hl : lineAt ls i with
+      | none => exact ⟨none, rfl⟩
+      | some s =>
+        obtain ⟨b, hb1⟩ := hscan i s hl
+        simp only []
+        rw [hb1]
+        cases b with
+        | none => exact ih _
+        | some p => obtain ⟨o, l⟩ := p; exact ⟨_, rfl⟩
+
+/-- **`lbuf_search` with a pattern without NUL, started on an existing character, never traps** — whatever the bytes
+    of the lines are -/
+theorem search_total_c (ls : Lines) (kw : Bytes) (ic : Bool) (dir r o : Int) (h0 : NoNul kw) (ho : o < slenAt ls r) :
+    ∃ res, search ls kw ic dir r o = some res := by
+  unfold search
+  obtain ⟨m, hm, hre⟩ := engine_c_strings kw (if ic then RE_ICASE else 0) h0
+  rw [hm]
+  cases m with
+  | none => exact ⟨none, rfl⟩
+  | some re =>
+    simp only []
+    refine search_rows_total_c ls dir _ ?_ _ _
+    intro i s hs
+    have hgo := fun off => search_go_total_c dir r o re i s (hre re rfl) (s.length + 2) off none
+    by_cases hc : (decide (dir > 0) && r == i) = true
+    · rw [if_pos hc]
+      simp only [Bool.and_eq_true, decide_eq_true_eq, beq_iff_eq] at hc
+      obtain ⟨_, rfl⟩ := hc
+      have hsl' : slenAt ls r = ucSlen s := by unfold slenAt; rw [hs]
+      obtain ⟨b, hb⟩ := Lemmas.C08.chr_some_of_le (o + 1).toNat s (by omega)
+      rw [hb]
+      simp only []
+      have := Lemmas.C08.chr_le_length _ _ _ hb
+      rw [if_neg (by omega)]
+      exact hgo b
+    · rw [if_neg hc]
+      rw [if_neg (by omega)]
+      exact hgo 0
+
+/-! ### where a hit can be -/
+
+/-- a result of `lbuf_search`, weak form: an existing line and a column that is at most the number of its characters -/
+def HitIn (ls : Lines) (res : Option (Int × Int × Int)) : Prop :=
+  ∀ r' o' len, res = some (r', o', len) → 0 ≤ r' ∧ r' < ls.length ∧ 0 ≤ o' ∧ o' ≤ slenAt ls r'
+
+/-- a hit on one line with column at most `B` -/
+def LineHitB (B : Nat) (b : Option (Int × Int)) : Prop := ∀ o l, b = some (o, l) → 0 ≤ o ∧ o ≤ (B : Int)
+
+theorem search_go_hitB (dir r0 o0 : Int) (re : RStr) (i : Int) (s : Bytes) (B : Nat)
+    (hin : ∀ (off : Nat) res offs c, off ≤ s.length →
+      rstrFind re (s.drop off) 1 (if off != 0 then RE_NOTBOL else 0) search.Ex_ND search.Ex_NG = some (res, offs, c) →
+      ¬ res < 0 → ucOff s (off + (offs.getD 0 0).toNat) ≤ B) :
+    ∀ (f off : Nat) (best : Option (Int × Int)), off ≤ s.length → LineHitB B best →
+      ∀ b, search.go dir r0 o0 re i s f off best = some b → LineHitB B b := by
+  intro f
+  induction f with
+  | zero => intro off best _ hb b h; unfold search.go at h; cases h; exact hb
+  | succ f ih =>
+    intro off best hoff hb b h
+    unfold search.go at h
+    cases hf : rstrFind re (s.drop off) 1 (if off != 0 then RE_NOTBOL else 0) search.Ex_ND search.Ex_NG with
+    | none => rw [hf] at h; cases h
+    | some x =>
+      obtain ⟨res, offs, c⟩ := x
+      rw [hf] at h
+      simp only [] at h
+      by_cases h0 : res < 0
+      · rw [if_pos h0] at h; cases h; exact hb
+      · rw [if_neg h0] at h
+        have hbest : LineHitB B (some (((ucOff s (off + (offs.getD 0 0).toNat) : Nat) : Int),
+            ((ucOff (s.drop (off + (offs.getD 0 0).toNat)) ((offs.getD 1 0).toNat - (offs.getD 0 0).toNat) : Nat) : Int))) := by
+          intro o l he
+          cases he
+          have := hin off res offs c hoff hf h0
+          omega
+        repeat' split at h
+        all_goals first
+          | (cases h; exact hb)
+          | (cases h; exact hbest)
+          | (rename_i hcont
+             simp only [Bool.or_eq_true, decide_eq_true_eq, not_or, ge_iff_le, Nat.not_le] at hcont
+             exact ih _ _ (by omega) hbest b h)
+
+theorem search_rows_hitB (ls : Lines) (dir : Int) (scan : Int → Bytes → Option (Option (Int × Int))) (Bf : Bytes → Nat)
+    (hscan : ∀ i s b, lineAt ls i = some s → scan i s = some b → LineHitB (Bf s) b) :
+    ∀ (f : Nat) (i : Int) res, search.rows ls dir ls.length scan f i = some res →
+      ∀ r' o' len, res = some (r', o', len) → 0 ≤ r' ∧ r' < ls.length ∧ 0 ≤ o' ∧
+        ∃ s, lineAt ls r' = some s ∧ o' ≤ (Bf s : Int) := by
+  intro f
+  induction f with
+  | zero => intro i res h; unfold search.rows at h; cases h; intro r' o' len h; cases h
+  | succ f ih =>
+    intro i res h
+    unfold search.rows at h
+    split at h
+    · cases h; intro r' o' len h; cases h
+    · rename_i hi
+      cases hl : lineAt ls i with
+      | none => rw [hl] at h; cases h; intro r' o' len h; cases h
+      | some s =>
+        rw [hl] at h
+        simp only [] at h
+        cases hb : scan i s with
+        | none => rw [hb] at h; cases h
+        | some b =>
+          rw [hb] at h
+          have hb2 := hscan i s b hl hb
+          cases b with
+          | none => exact ih _ _ h
+          | some p =>
+            obtain ⟨o, l⟩ := p
+            cases h
+            intro r' o' len he
+            cases he
+            obtain ⟨a, b⟩ := hb2 o l rfl
+            simp only [Bool.or_eq_true, decide_eq_true_eq, not_or] at hi
+            exact ⟨by omega, by omega, a, s, hl, b⟩
+
+/-- the common part: what `lbuf_search` reports, for a bound `Bf` on the columns of the matches of each line -/
+theorem search_hitB (ls : Lines) (kw : Bytes) (ic : Bool) (dir r o : Int) (Bf : Bytes → Nat)
+    (hin : ∀ re, rstrMake kw (if ic then RE_ICASE else 0) = some (some re) → ∀ s ∈ ls, ∀ (off : Nat) res offs c,
+      off ≤ s.length →
+      rstrFind re (s.drop off) 1 (if off != 0 then RE_NOTBOL else 0) search.Ex_ND search.Ex_NG = some (res, offs, c) →
+      ¬ res < 0 → ucOff s (off + (offs.getD 0 0).toNat) ≤ Bf s)
+    (res : Option (Int × Int × Int)) (h : search ls kw ic dir r o = some res) :
+    ∀ r' o' len, res = some (r', o', len) → 0 ≤ r' ∧ r' < ls.length ∧ 0 ≤ o' ∧
+      ∃ s, lineAt ls r' = some s ∧ o' ≤ (Bf s : Int) := by
+  unfold search at h
+  cases hm : rstrMake kw (if ic then RE_ICASE else 0) with
+  | none => rw [hm] at h; cases h
+  | some m =>
+    rw [hm] at h
+    cases m with
+    | none => cases h; intro r' o' len h; cases h
+    | some re =>
+      simp only [] at h
+      refine search_rows_hitB ls dir _ Bf ?_ _ _ res h
+      intro i s b hs hb
+      have hmem : s ∈ ls := by
+        unfold lineAt at hs
+        split at hs
+        · cases hs
+        · exact List.mem_of_getElem? hs
+      generalize (if (decide (dir > 0) && r == i) = true then
+            match ucChr s (o + 1).toNat with
+            | some b => b
+            | none => s.length + 1
+          else 0) = off0 at hb
+      by_cases hc : off0 > s.length
+      · rw [if_pos hc] at hb; cases hb
+      · rw [if_neg hc] at hb
+        exact search_go_hitB dir r o re i s (Bf s) (hin re hm s hmem) (s.length + 2) off0 none (by omega)
+          (by intro o l h; cases h) b hb
+
+/-- **a hit of `lbuf_search` lies on an existing line, at a column that is at most the number of its characters** —
+    no hypothesis on the pattern or on the lines -/
+theorem search_hit_in (ls : Lines) (kw : Bytes) (ic : Bool) (dir r o : Int)
+    (res : Option (Int × Int × Int)) (h : search ls kw ic dir r o = some res) : HitIn ls res := by
+  intro r' o' len he
+  obtain ⟨a1, a2, a3, s, hs, a4⟩ := search_hitB ls kw ic dir r o ucSlen
+    (fun re _ s _ off res offs c _ _ _ => ucOff_le_slen s _) res h r' o' len he
+  refine ⟨a1, a2, a3, ?_⟩
+  unfold slenAt; rw [hs]; exact a4
+
+/-! ### the residual hypothesis on the position of a match: decidable, per pattern and line -/
+
+/-- on the line `l`, every match of the pattern `kw` that the scan of `lbuf_search` can see (the rest of the line from
+    any byte offset, `RE_NOTBOL` set away from the start) starts before the end of the line -/
+def hitInside (kw : Bytes) (ic : Bool) (l : Bytes) : Bool :=
+  match rstrMake kw (if ic then RE_ICASE else 0) with
+  | some (some re) => (List.range (l.length + 1)).all fun off =>
+      match rstrFind re (l.drop off) 1 (if off != 0 then RE_NOTBOL else 0) search.Ex_ND search.Ex_NG with
+      | some (res, offs, _) => decide (res < 0) || decide (off + (offs.getD 0 0).toNat < l.length)
+      | none => true
+  | _ => true
+
+/-- the pattern `kw` matches inside the lines `ls` (decidable) -/
+def PatIn (kw : Bytes) (ic : Bool) (ls : Lines) : Prop := ∀ l ∈ ls, hitInside kw ic l = true
+
+instance (kw : Bytes) (ic : Bool) (ls : Lines) : Decidable (PatIn kw ic ls) := by unfold PatIn; exact inferInstance
+
+theorem hitInside_spec {kw : Bytes} {ic : Bool} {l : Bytes} (h : hitInside kw ic l = true) {re : RStr}
+    (hm : rstrMake kw (if ic then RE_ICASE else 0) = some (some re)) (off : Nat) (res : Int) (offs : List Int) (c : Nat)
+    (hoff : off ≤ l.length)
+    (hf : rstrFind re (l.drop off) 1 (if off != 0 then RE_NOTBOL else 0) search.Ex_ND search.Ex_NG = some (res, offs, c))
+    (h0 : ¬ res < 0) : off + (offs.getD 0 0).toNat < l.length := by
+  unfold hitInside at h
+  rw [hm] at h
+  simp only [List.all_eq_true, List.mem_range] at h
+  have := h off (by omega)
+  rw [hf] at this
+  simp only [Bool.or_eq_true, decide_eq_true_eq] at this
+  rcases this with h1 | h1
+  · exact absurd h1 h0
+  · exact h1
+
+/-- **with the residual hypothesis a hit is a character of its line** (`HitOk`) -/
+theorem search_hit_strict (ls : Lines) (kw : Bytes) (ic : Bool) (dir r o : Int) (hl : ∀ l ∈ ls, LineOk l)
+    (hp : PatIn kw ic ls) (res : Option (Int × Int × Int)) (h : search ls kw ic dir r o = some res) : HitOk ls res := by
+  intro r' o' len he
+  obtain ⟨a1, a2, a3, s, hs, a4⟩ := search_hitB ls kw ic dir r o (fun s => ucSlen s - 1)
+    (fun re hm s hs off res offs c hoff hf h0 => by
+      have := ucOff_lt (hl s hs) (hitInside_spec (hp s hs) hm off res offs c hoff hf h0)
+      omega) res h r' o' len he
+  refine ⟨a1, a2, a3, ?_⟩
+  have hmem : s ∈ ls := by
+    unfold lineAt at hs
+    split at hs
+    · cases hs
+    · exact List.mem_of_getElem? hs
+  have hpos : 0 < ucSlen s := by
+    have := ucOff_lt (hl s hmem) (k := 0) (by obtain ⟨w, rfl, _, _⟩ := hl s hmem; simp)
+    omega
+  unfold slenAt; rw [hs]
+  show o' < ((ucSlen s : Nat) : Int)
+  omega
 
 end Neatvi.Lemmas.C05f
